@@ -282,6 +282,35 @@ def chain_rules(rep, prog):
         rep.check("CHAIN.roots", len(apps) == 1 and apps[0].loops == (lo,) and bases == {zeros}, fwhere(f), "one fresh zero p x p matrix per root, appended once",
                   "graphs are not built from a fresh zero matrix once per root")
         return
+    if len(loops) == 2 and loops[0][1]["iter"] == ("ext", "range", (p,), ()) and loops[1][1]["iter"] == ("ext", "range", (("binop", "-", p, ("const", 1)),), ()):
+        # one inner loop over the p-1 links k - (k+1): backward (k+1 -> k) when the link lies before the root (k < i), forward otherwise
+        (lo, lout), (li2, lin2) = loops
+        i = ("elem", lout["iter"])
+        k = ("elem", lin2["iter"])
+        sts = [s_ for s_ in S.select("store", qname=q) if li2 in s_.loops and is_const(s_.value, 1) and s_.aug is None and s_.idx[0] == "tuple" and len(s_.idx[1]) == 2]
+        k1 = ("binop", "+", k, ("const", 1))
+        before = npred(("cmp", "<", k, i), True)
+        kinds = {}
+        for s_ in sts:
+            cond = npred(s_.path[-1][0], s_.path[-1][1]) if s_.path else None
+            tail = tuple(s_.path[:-1])
+            if tuple(s_.idx[1]) == (k1, k) and cond == before:
+                kinds["back"] = tail
+            elif tuple(s_.idx[1]) == (k, k1) and cond == negate_pred(before):
+                kinds["fwd"] = tail
+            else:
+                kinds["?"] = fmt(s_.idx)[:60]
+        if len(sts) == 2 and set(kinds) == {"back", "fwd"} and kinds["back"] == kinds["fwd"]:
+            rep.ok("CHAIN.partition", fwhere(f, lin2["node"]), "root i: link k is k+1 -> k for k < i and k -> k+1 for k >= i, k over all p-1 links: each chain edge once, pointing away from the root")
+            apps = [c for c in S.select("call", qname=q) if c.callkind == "method" and c.target == ".append"]
+            zeros = ("ext", "numpy.zeros", (("tuple", (p, p)),), ())
+            rep.check("CHAIN.roots", len(apps) == 1 and apps[0].loops == (lo,) and list(lin2["init"].values()) == [zeros], fwhere(f), "one fresh zero p x p matrix per root, appended once",
+                      "graphs are not built from a fresh zero matrix once per root")
+        elif "?" in kinds or len(sts) != 2:
+            rep.unk("CHAIN.partition", fwhere(f, lin2["node"]), "one loop over the links whose stores are not read: %s" % (kinds,))
+        else:
+            rep.bad("CHAIN.partition", fwhere(f, lin2["node"]), "the links are not oriented away from the root: %s" % (sorted(kinds),))
+        return
     if len(loops) != 3:
         rep.unk("CHAIN.partition", fwhere(f), "chain enumeration is no longer three nested range loops; the interval rule does not read this idiom")
         return
@@ -350,4 +379,4 @@ def run(prog, rep, tier):
     rep.assume("completeness / uniqueness of the 2^u enumeration and shortcut = general path are not decided (DESIGN.md C07)")
 
 
-from ..pred import resolve, conj  # noqa: E402
+from ..pred import resolve, conj, negate as negate_pred  # noqa: E402
